@@ -348,6 +348,11 @@ class Monitor(object):
         if st == 'OPENSENT' and self.t_connect is not None:
             if obs['timers'].get('hold') != [self.t_connect + 720]:
                 self.fail('C03', 'OpenSent without the 4-minute hold limit: %r' % (obs['timers'],), 'large-hold')
+                if not obs['timers'].get('hold'):
+                    # C12: "every connection it opened is eventually closed by it or by the peer": with no hold timer a
+                    # connection on which the peer stays silent is never closed
+                    self.fail('C12', 'a connection is open in OpenSent with no hold timer running: should the peer stay silent it '
+                                     'is never closed (timers %r)' % (obs['timers'],), 'never-closed')
             elif obs['timers'].get('retry'):
                 # "while waiting for the peer's OPEN the limit is the fixed 4-minute large hold time": the one other timer
                 # whose expiry ends the wait (FSM error in OpenSent) is not running (RFC 4271 8.2.2: the ConnectRetryTimer
@@ -626,6 +631,10 @@ class Monitor(object):
                     bad('a NOTIFICATION must end the session without an answer', cls)
             elif c0 == 'rr':
                 expect_unchanged('route-refresh')
+        if k == 'connfail' and ps == 'CONNECT' and ns == 'IDLE' and not self.stopped:
+            # a refused / timed-out attempt: Idle with the damped automatic restart pending (Appendix A)
+            if not obs['timers'].get('idlehold') and not any(p in ('closing', 'connecting') for p in obs['conns']):
+                bad('a failed connection attempt left the agent Idle without a restart pending', 'no-restart-after-connfail')
         if ns == 'IDLE' and insess and not self.stopped and k in ('lost', 'chunk', 'fire'):
             # "-> Idle" always includes the damped automatic restart being pending (Appendix A)
             if not obs['timers'].get('idlehold') and not any(p == 'closing' for p in obs['conns']):
